@@ -13,6 +13,7 @@ import (
 	"golang.org/x/net/html"
 
 	"github.com/ory/fosite"
+	"github.com/ory/fosite/token/jwt"
 )
 
 // Obs is what a user agent / client can observe of one endpoint round trip.
@@ -206,9 +207,9 @@ func (w *World) TokenWith(form url.Values, a Auth, opt TokenOpts) *Obs {
 	req := postReq("/token", form, a)
 	rec := httptest.NewRecorder()
 	ctx := context.Background()
-	sess := opt.Session
-	if sess == nil {
-		sess = NewSess("")
+	var sess fosite.Session = w.NewSession("")
+	if opt.Session != nil {
+		sess = opt.Session
 	}
 	ar, err := w.Prov.NewAccessRequest(ctx, req, sess)
 	if err != nil {
@@ -237,6 +238,14 @@ func (w *World) TokenWith(form url.Values, a Auth, opt TokenOpts) *Obs {
 	}
 	w.Prov.WriteAccessResponse(ctx, rec, ar, resp)
 	return parseRecorder(rec)
+}
+
+// TokenAbandoned: the integrator validates the token request (NewAccessRequest) and then declines
+// to answer it (its own policy said no): no response is ever populated.
+func (w *World) TokenAbandoned(form url.Values, a Auth) error {
+	req := postReq("/token", form, a)
+	_, err := w.Prov.NewAccessRequest(context.Background(), req, w.NewSession(""))
+	return err
 }
 
 func errString(err error) string {
@@ -296,15 +305,19 @@ func (w *World) authorizeReq(req *http.Request, opt AuthzOpts) *Obs {
 	for _, a := range auds {
 		ar.GrantAudience(a)
 	}
-	sess := opt.Session
-	if sess == nil {
+	var sess fosite.Session
+	if opt.Session != nil {
+		sess = opt.Session
+	} else {
 		sub := opt.Subject
 		if sub == "" {
 			sub = "user-1"
 		}
-		sess = NewSess(sub)
-		sess.Claims.AuthTime = w.now.Truncate(1e9)
-		sess.Claims.RequestedAt = w.now.Truncate(1e9)
+		sess = w.NewSession(sub)
+		if os, ok := sess.(interface{ IDTokenClaims() *jwt.IDTokenClaims }); ok {
+			os.IDTokenClaims().AuthTime = w.now.Truncate(1e9)
+			os.IDTokenClaims().RequestedAt = w.now.Truncate(1e9)
+		}
 	}
 	resp, err := w.Prov.NewAuthorizeResponse(ctx, ar, sess)
 	if err != nil {
@@ -333,7 +346,7 @@ func (w *World) Introspect(token, hint, scope string, caller Auth, bearer string
 	}
 	rec := httptest.NewRecorder()
 	ctx := context.Background()
-	ir, err := w.Prov.NewIntrospectionRequest(ctx, req, NewSess(""))
+	ir, err := w.Prov.NewIntrospectionRequest(ctx, req, w.NewSession(""))
 	if err != nil {
 		w.Prov.WriteIntrospectionError(ctx, rec, err)
 		o := parseRecorder(rec)
@@ -390,7 +403,7 @@ func (w *World) PAR(form url.Values, a Auth) *Obs {
 		o.GoErr = errString(err)
 		return o
 	}
-	resp, err := w.Prov.NewPushedAuthorizeResponse(ctx, ar, NewSess(""))
+	resp, err := w.Prov.NewPushedAuthorizeResponse(ctx, ar, w.NewSession(""))
 	if err != nil {
 		w.Prov.WritePushedAuthorizeError(ctx, rec, ar, err)
 		o := parseRecorder(rec)
@@ -420,7 +433,7 @@ func (w *World) DeviceAuth(form url.Values, a Auth) *Obs {
 	for _, a := range dr.GetRequestedAudience() {
 		dr.GrantAudience(a)
 	}
-	sess := NewSess("")
+	sess := w.NewSession("")
 	resp, err := w.Prov.NewDeviceResponse(ctx, dr, sess)
 	if err != nil {
 		w.Prov.WriteAccessError(ctx, rec, dr, err)
